@@ -141,7 +141,10 @@ def run_impl(case):
     nodes = preorder(p.node, [])
     pos = {id(n): i for i, n in enumerate(nodes)}
     plots = []
+    present = {0} | {o["id"] for o in case["ops"]}
     for id1, id2, md in case.get("plots", []):
+        if id1 not in present:
+            continue  # (only after shrinking) the reference id must exist: the code raises KeyError otherwise
         log = []
         with record_entropy(log):
             df = p.to_plotly_dataframe(tree_id1=IDNAME[id1], tree_id2=None if id2 is None else IDNAME[id2], max_depth=md)
@@ -557,12 +560,12 @@ def clean(x):
 
 def gen_points(rng, kind, n, m):
     if kind == "cont":
-        scale = rng.choice([1.0, 1.0, 10.0, 100.0, 1e-3])
+        scale = rng.choice([1.0, 0.1, 10.0, 100.0, 1000.0, 1e-3])
         x = rng.normal(size=(n, m)) * scale + rng.choice([0.0, 5.0, -3.0])
     elif kind == "unif":
-        x = rng.uniform(0, rng.choice([1.0, 8.0, 50.0]), size=(n, m))
+        x = rng.uniform(0, rng.choice([1.0, 8.0, 50.0, 1000.0]), size=(n, m))
     elif kind == "int":
-        x = rng.integers(0, rng.choice([3, 5, 9, 17, 40]), size=(n, m)).astype(float)
+        x = rng.integers(0, rng.choice([3, 5, 9, 17, 40, 200]), size=(n, m)).astype(float)
     elif kind == "dyadic":
         x = rng.integers(-16, 17, size=(n, m)) / 8.0
     elif kind == "dup":
@@ -608,7 +611,7 @@ def gen_cases(ctx):
         st[key] = {}
     def bumpstat(key, v):
         st[key][str(v)] = st[key].get(str(v), 0) + 1
-    ncases = ctx.scale(260, 6000)
+    ncases = ctx.scale(400, 6000)
     # small hand-made boundary cases first
     hand = [
         {"cub": 1, "clb": 0.0, "m": 1, "data": [[0.0], [2.0], [4.0]]},               # a point exactly on the midpoint
@@ -623,9 +626,9 @@ def gen_cases(ctx):
     while len(cases) < ncases:
         kind = r.choice(kinds)
         m = r.choice([1, 1, 2, 2, 3, 4])
-        n = r.choice([1, 2, 3, 5, 8, 13, 21, 34, 55]) if r.random() < 0.8 else r.randint(56, ctx.scale(110, 150))
-        cub = r.choice([0, 1, 1, 2, 2, 3, 5, 8, 20])
-        clb = r.choice([0.0, 1e-9, 0.01, 0.1, 0.25, 0.25, 0.5, 0.9, 1.0, 2.0])
+        n = r.choice([1, 2, 3, 5, 8, 13, 21, 34, 55, 55]) if r.random() < 0.8 else r.randint(56, ctx.scale(110, 150))
+        cub = r.choice([0, 1, 1, 2, 2, 3, 5]) if n < 34 or r.random() < 0.5 else r.choice([5, 8, 20])
+        clb = r.choice([0.0, 1e-9, 0.01, 0.01]) if r.random() < 0.55 else r.choice([0.1, 0.25, 0.25, 0.5, 0.9, 1.0, 2.0])
         data = gen_points(rng, kind, n, m)
         if adjacent_corner(data, m):
             continue
